@@ -3,7 +3,7 @@ import itertools
 EXPLANATION = 'parse_update_metadata: JSON string decoding (raw bytes, simple escapes, \\uXXXX, surrogate pairs; digits and bytes symbolic) against an RFC 8259 reference; totality and memory safety on arbitrary exact-size byte buffers; recursion depth bounded independently of input nesting'
 ASSUMPTIONS = ['string jobs: the "version" field holds up to 3 items, each of a fixed kind per job (raw byte >= 0x20 / simple escape with a symbolic escape character / \\uXXXX with 4 symbolic digit bytes / a surrogate pair with 8 symbolic digit bytes); the rest of the document is a fixed valid one; lone surrogates are outside the claim (RFC 8259 leaves them undefined)',
                'totality jobs: every byte string of length 0..4 (quick) / 0..6 (thorough) in an exact-size heap buffer, plus length-6/8 buffers starting with the given structural byte; longer inputs are outside the bound',
-               'depth jobs: 3000 nested "[" / {"a": openers; the engine flags more than 400 call frames, the native replay runs the parser on a 512 KiB stack',
+               'number jobs: numeric literals of the listed lengths (powers of two and their neighbours; every length 1..69 on thorough) in four forms (plain, signed, fraction, exponent)', 'depth jobs: 3000 nested "[" / {"a": openers; the engine flags more than 400 call frames, the native replay runs the parser on a 512 KiB stack',
                'strtod is modelled as consuming the whole (already scanned) number text; errno is a harness object; std::isdigit is the "C" locale predicate; libcurl entry points are never reached']
 def jobs(tier):
     out = []
@@ -14,6 +14,8 @@ def jobs(tier):
         out.append(Job('total-len%d' % n, 'json.cpp', 'h_c38_total', [n, 0], extra_units=['strinst.cpp'], reach=['error'], timeout=1500, max_paths=2000000, bounds='every %d-byte input' % n))
     for first in (0x7b, 0x5b, 0x22, 0x2d):
         out.append(Job('total-len%d-first%02x' % (5 if tier == 'quick' else 6, first), 'json.cpp', 'h_c38_total', [5 if tier == 'quick' else 6, first], extra_units=['strinst.cpp'], reach=['error'], timeout=3000, max_paths=2000000, bounds='inputs starting with byte 0x%02x' % first))
+    for n in ((1, 2, 15, 16, 17, 31, 32, 33, 63, 64, 65, 255, 256, 257) if tier == 'quick' else list(range(1, 70)) + [127, 128, 129, 255, 256, 257, 1023, 1024, 1025]):
+        out.append(Job('number-len%d' % n, 'json.cpp', 'h_c38_number', [n], extra_units=['strinst.cpp'], reach=[], timeout=1500, bounds='numeric literal of %d characters' % n))
     for opener in (0, 1):
         out.append(Job('depth-%d' % opener, 'json.cpp', 'h_c38_depth', [3000, opener], extra_units=['strinst.cpp'], reach=[], max_steps=80_000_000, timeout=1500, bounds='3000 nested openers'))
     return out
